@@ -99,6 +99,13 @@ def compare_replicas(builds, xs, root, uidx, n_sched, res, label, source, stream
                     engine._add(res, oracles.V("L4", "replica-crashes-where-reference-completes", -1, 0,
                                                "%s: %s ; %s completed the same script" % (name, crash[1], builds[0][0])), ctx2, "replica:" + name)
                 continue
+            if bi > 0 and ref_crash is not None and ref_crash[0] != "harness":
+                # the reference replica died on this script but this one completed it
+                ctx2 = dict(ctx)
+                ctx2["replicas"] = [builds[0][4], descr]
+                ctx2["ref_script"] = traces[0][1][r]
+                engine._add(res, oracles.V("L4", "replica-crashes-where-reference-completes", -1, 0,
+                                           "%s: %s ; %s completed the same script" % (builds[0][0], ref_crash[1], name)), ctx2, "replica:" + name)
             engine._account(st, run)
             for f in oracles.run_findings(run):
                 engine.annotate_full(f, comp["meta"])
@@ -396,7 +403,9 @@ def tasks_c20(root, tier, tree):
     while len(srcs) < T["c20_sources"]:
         idx = 100000 + i
         i += 1
-        if i % 2 == 0:
+        if i % 5 == 4:
+            p = workload.generated_unit(root, idx, stream="program-c20-greedy", greedyprog=True)
+        elif i % 2 == 0:
             p = workload.generated_unit(root, idx, stream="program-c20-regex", regexprog=True)
         else:
             p = workload.generated_unit(root, idx, stream="program-c20", bias={"rich": i % 4 == 1})
